@@ -27,7 +27,7 @@ ASSUMPTIONS = [
     "default on an AnyField (the caller's object is handed out like a mutable default argument) and mutable items "
     "nested inside an untyped container default (only the container is copied) are not mutated by the harness",
 ]
-REQUIRED = ["observer:before", "observer:middle", "observer:after", "inplace:typed", "inplace:untyped", "shared-item-type", "dynamic-add"]
+REQUIRED = ["cross-assign+edit", "observer:before", "observer:middle", "observer:after", "inplace:typed", "inplace:untyped", "shared-item-type", "dynamic-add"]
 LEVEL_TEXT = (
     "Generated schemas and histories on one instance with an untouched observer instance and a frozen schema "
     "snapshot as oracle; kills mutants that stop copying default containers, register dynamic fields on the "
@@ -89,11 +89,14 @@ def strategy(tier):
                                                 "what": st.sampled_from(["add", "add", "clear", "replace"])}))
         # only typed scalar-item containers: the library wraps those into its own object; handing one and the same
         # caller-owned object (untyped list, configuration item) to two configurations is caller-made aliasing
-        containers = [i for i, (p, nd) in enumerate(leaves) if (nd["kind"] == "list" and nd.get("item")) or (nd["kind"] == "dict" and (nd.get("keyf") or nd.get("valuef")))]
+        containers = [i for i, (p, nd) in enumerate(leaves) if (nd["kind"] == "list" and nd.get("item") and nd["item"]["kind"] != "any")
+                      or (nd["kind"] == "dict" and (nd.get("keyf") or nd.get("valuef")))]  # (a list of AnyField items is stored as the caller's own list)
         if containers:
             extra.append(st.fixed_dictionaries({"op": st.just("cross_assign"), "leaf": st.sampled_from(containers)}))
+        typed = [(p, nd) for p, nd in leaves if (nd["kind"] == "list" and nd.get("item")) or (nd["kind"] == "dict" and (nd.get("keyf") or nd.get("valuef")))]
+        bfill = st.fixed_dictionaries({".".join(p): st.lists(ops.value_for(nd), min_size=3, max_size=3) for p, nd in typed}) if typed else st.just({})
         base = ops.single_op(spec)
-        return st.fixed_dictionaries({"spec": st.just(spec), "observer": st.sampled_from(["before", "middle", "after"]),
+        return st.fixed_dictionaries({"spec": st.just(spec), "bfill": bfill, "observer": st.sampled_from(["before", "middle", "after"]),
                                       "ops": st.lists(ops.weighted((3, base), (1, st.one_of(*extra))) if extra else base, min_size=2, max_size=n)})
     # lists and dicts are what can be shared by accident: over-weight them
     return worlds.schema_spec(tier).flatmap(hist)
@@ -179,6 +182,21 @@ def _raw_inplace(cfg, leaves, op):
     return True
 
 
+def _fill_observer(world, b, case):
+    """The observer's typed containers get values of their own (so that sharing with A would be visible)."""
+    from . import c02
+    for p, nd in ops.spec_leaves(world.spec):
+        for raw in case.get("bfill", {}).get(".".join(p), []):
+            value = c02._filter_valid(nd, specs.realize(raw), world.ctx)
+            if not value:
+                continue
+            try:
+                ops.set_via(b, p, value, "setattr")
+                break
+            except Exception:
+                continue
+
+
 def run_case(case, R):
     cc = sandbox._state["cc"]
     spec = case["spec"]
@@ -195,6 +213,7 @@ def run_case(case, R):
         R.label("observer:" + when)
         if when == "before":
             b = world.schema(key_filename=keyfile)
+            _fill_observer(world, b, case)
             observers.append((b, worlds.snapshot(b, cc)))
         leaves = ops.spec_leaves(spec)
         nops = len(case["ops"])
@@ -206,6 +225,7 @@ def run_case(case, R):
                 b = world.schema(key_filename=keyfile)
                 R.check(_mask(worlds.snapshot(b, cc)) == pristine, "isolated", "built-later",
                         lambda: "a configuration built after A's mutations differs from a pristine one: %s" % worlds.diff(pristine, _mask(worlds.snapshot(b, cc))))
+                _fill_observer(world, b, case)
                 observers.append((b, worlds.snapshot(b, cc)))
             name = op["op"]
             if name == "cross_assign":
@@ -215,6 +235,14 @@ def run_case(case, R):
                     try:
                         ops.set_via(state["cfg"], path, worlds.get_path(observers[0][0], path), "setattr")
                         R.label("cross-assign")
+                        mine = worlds.get_path(state["cfg"], path)
+                        if mine:  # ... and immediately edits its own copy in place
+                            if isinstance(mine, dict):
+                                mine.pop(next(iter(mine)))
+                            else:
+                                mine.pop()
+                            inplace = True
+                            R.label("cross-assign+edit")
                     except Exception:
                         pass
             elif name == "raw_inplace":
